@@ -18,7 +18,7 @@ ASSUMPTIONS = ['only the unambiguous sub-language of each map is judged; shadowe
                'loops that share one map position are an unordered group (the position is the order the map declares, not the listing order of the XML): a fifth of the documents '
                'emit their instances interleaved, the first instance of every required sibling first']
 REQUIRED_COUNTERS = ['docs', 'accepted', 'segments', 'reach:walk', 'reach:_check_loop_usage', 'reach:_flush_mandatory_segs', 'reach:element_if.is_valid',
-                     'reach:composite_if.is_valid', 'maps-with-accepted-docs', 'acks-parsed', 'docs:sibling-loops-interleaved', 'docs:sibling-loops-X,Y,X']
+                     'reach:composite_if.is_valid', 'maps-with-accepted-docs', 'acks-parsed', 'docs:sibling-loops-interleaved', 'docs:sibling-loops-X,Y,X', 'docs:alternating-transaction-types']
 MIN_CASES = {'quick': 250, 'thorough': 8000}
 WATCHDOG_S = {'quick': 1200, 'thorough': 7200}
 
@@ -159,6 +159,31 @@ def run(ctx):
             if len(doc.recs) >= 10 and nsit >= 1:
                 sigs.add('%08x' % zlib.crc32(doc.text().encode('utf-8', 'replace')))
             ctx.sample({'map': label, 'params': kw, 'segments': len(doc.recs), 'text_head': doc.text()[:1200]})
+    # files that alternate between transaction types (X, Y, X as three interchanges): whatever the validator keeps per map or per reader
+    # (selected map, 837 service-line counter switch, code tables) must follow the switch there and back
+    plain = [x for x in entries if x['fic'] != 'FA' and x['file'] != '841.4010.XXXC.xml']
+    for k, e in enumerate(plain):
+        for rep in range(1 if ctx.quick else 6):
+            if not ctx.mine(('xyx', e['file'], e.get('tspc'), rep)):
+                continue
+            same = [x for x in plain if x['icvn'] == e['icvn'] and x['file'] != e['file']]
+            # an 837 in the middle half of the time (its LX / service-line bookkeeping is the stickiest state)
+            mids = [x for x in same if x['file'].startswith('837')] if (k + rep) % 2 == 0 else same
+            if not mids:
+                continue
+            o = mids[(k * 5 + rep + ctx.seed) % len(mids)]
+            try:
+                parts = [gen_doc.gen_document(e, zlib.crc32(repr((ctx.seed, 'xyx', k, rep, 0)).encode()), fill=0.5, opt_prob=0.7, maxrep=2, charset='E', n_st=1),
+                         gen_doc.gen_document(o, zlib.crc32(repr((ctx.seed, 'xyx', k, rep, 1)).encode()), fill=0.5, opt_prob=0.7, maxrep=2, charset='E', n_st=1),
+                         gen_doc.gen_document(e, zlib.crc32(repr((ctx.seed, 'xyx', k, rep, 2)).encode()), fill=0.5, opt_prob=0.7, maxrep=2, charset='E', n_st=1)]
+            except gen_doc.GenFailed:
+                continue
+            if sum(len(x.recs) for x in parts) > 1500:
+                continue
+            doc = gen_doc.concat_docs(parts)
+            n += 1
+            ctx.count('docs:alternating-transaction-types')
+            judge(ctx, doc, {'alternating': [e['file'], o['file'], e['file']], 'k': [k, rep], 'text': doc.text()[:6000]})
     # pinned witnesses for the listed findings: deterministic seeds, independent of VERIF_SEED
     if ctx.shard == 0:
         for e in entries:
